@@ -218,7 +218,7 @@ def check(pid, tier, scratch, replay):
         print('  history: %s' % props.describe(job['h']))
     cov = dict(states=max(states, 1), transitions=max(trans, 1), traces_validated_against_impl=len(jobs) - infra,
                samples=[dict(history=props.describe(j['h']), mode=j['mode'], query=j['opt'].get('api'), parked_at_storage_call=j['opt'].get('park')) for j in jobs[:3]],
-               free_running_traces_judged_by_tlc=judged, trace_lines=nq, trace_judge_states=tstates,
+               free_running_traces_judged_by_tlc=judged, trace_lines_by_event=dict(sorted(props.TRACE_EVENTS.items())), trace_lines=nq, trace_judge_states=tstates,
                queries_actually_raced_with_commits=raced, mixed_answers=len(viol) + sum(len(v) for v in hits.values()), model_runs=runs, inconclusive=infra,
                known_finding_hits={k: len(v) for k, v in hits.items()}, race_detector_jobs=race_jobs, race_reports_inside_wallet_code=len(race_reports),
                rule='(history ending in j >= 2 queued tips, query, k): the query goroutine is parked inside its k-th storage call, the follower commits the j block steps, the query resumes; its answer must equal the boundary view the specification gives before or after one of those steps')
